@@ -63,6 +63,37 @@ func vfc42StrHash(s string) uint64 {
 type vfc42World struct {
 	seed    uint64
 	nSeries int
+	hist    bool // some series carry native histogram samples
+}
+
+// kind of series i (the same for every tenant/query of the world): 0 float, 1 native histograms only,
+// 2 mixed (float samples and histogram samples alternate in 11-minute blocks).
+func (w vfc42World) kind(i int) int {
+	if !w.hist {
+		return 0
+	}
+	switch vfc42Mix(w.seed^uint64(i+7)*0x9fb21c651e98df25) % 5 {
+	case 0, 1:
+		return 1
+	case 2:
+		return 2
+	}
+	return 0
+}
+
+// vfc42HistCanon is the canonical text of a native histogram sample (what the oracle compares).
+func vfc42HistCanon(count, sum float64, buckets [][4]float64) string {
+	var b strings.Builder
+	fmt.Fprintf(&b, "count=%s sum=%s buckets=", strconv.FormatFloat(count, 'g', -1, 64), strconv.FormatFloat(sum, 'g', -1, 64))
+	for _, k := range buckets {
+		fmt.Fprintf(&b, "[%g %g %g %g]", k[0], k[1], k[2], k[3])
+	}
+	return b.String()
+}
+
+func vfc42HistOf(h uint64) (count, sum float64, buckets [][4]float64) {
+	c1, c2 := float64(h%37), float64((h>>8)%53)
+	return c1 + c2, float64((h>>16)%800000) / 8, [][4]float64{{0, 0.5, 1, c1}, {0, 1, 2, c2}}
 }
 
 func (w vfc42World) sid(tenant, query string, i int) uint64 {
@@ -83,21 +114,28 @@ func (w vfc42World) life(sid uint64, i int) (int64, int64) {
 	}
 }
 
-func (w vfc42World) sample(sid uint64, i int, lo, hi, t int64) (float64, bool) {
+func (w vfc42World) sample(sid uint64, i int, lo, hi, t int64) (vfc42Pt, bool) {
 	if t < lo || t > hi {
-		return 0, false
+		return vfc42Pt{}, false
 	}
 	if i%4 != 0 || i == 4 {
 		if vfc42Mix(sid^uint64(t/420000)*0x2545f4914f6cdd1d)%6 == 0 { // a hole
-			return 0, false
+			return vfc42Pt{}, false
 		}
 	}
-	return float64(vfc42Mix(sid^uint64(t)*0x9e3779b97f4a7c15)%800000) / 8, true
+	h := vfc42Mix(sid ^ uint64(t)*0x9e3779b97f4a7c15)
+	k := w.kind(i)
+	if k == 1 || (k == 2 && vfc42Mix(sid^uint64(t/660000)*0x4cf5ad432745937f)%2 == 0) {
+		return vfc42Pt{T: t, H: vfc42HistCanon(vfc42HistOf(h))}, true
+	}
+	return vfc42Pt{T: t, V: float64(h%800000) / 8}, true
 }
 
+// vfc42Pt is one sample: a float (H == "") or a native histogram (H = canonical text).
 type vfc42Pt struct {
 	T int64
 	V float64
+	H string
 }
 
 // eval is the direct answer: samples at start + k*step <= end, series without samples omitted.
@@ -108,8 +146,8 @@ func (w vfc42World) eval(tenant, query string, start, end, step int64) map[strin
 		lo, hi := w.life(sid, i)
 		var pts []vfc42Pt
 		for t := start; t <= end; t += step {
-			if v, ok := w.sample(sid, i, lo, hi, t); ok {
-				pts = append(pts, vfc42Pt{t, v})
+			if p, ok := w.sample(sid, i, lo, hi, t); ok {
+				pts = append(pts, p)
 			}
 		}
 		if len(pts) > 0 {
@@ -129,6 +167,8 @@ type vfc42Down struct {
 	mu    sync.Mutex
 	calls int
 	bad   []string
+	// responses whose first series holds native histogram samples only
+	histFirst int
 }
 
 func (d *vfc42Down) ncalls() int { d.mu.Lock(); defer d.mu.Unlock(); return d.calls }
@@ -181,15 +221,53 @@ func (d *vfc42Down) RoundTrip(r *http.Request) (*http.Response, error) {
 		if !first {
 			b.WriteByte(',')
 		}
-		first = false
-		fmt.Fprintf(&b, `{"metric":{"__name__":%q,"i":"%d","tenant":%q},"values":[`, query, i, tenant)
-		for k, p := range pts {
-			if k > 0 {
-				b.WriteByte(',')
+		if first && len(pts) > 0 {
+			allHist := true
+			for _, p := range pts {
+				if p.H == "" {
+					allHist = false
+				}
 			}
-			fmt.Fprintf(&b, `[%d.%03d,"%s"]`, p.T/1000, p.T%1000, strconv.FormatFloat(p.V, 'f', -1, 64))
+			if allHist {
+				d.mu.Lock()
+				d.histFirst++
+				d.mu.Unlock()
+			}
 		}
-		b.WriteString("]}")
+		first = false
+		fmt.Fprintf(&b, `{"metric":{"__name__":%q,"i":"%d","tenant":%q}`, query, i, tenant)
+		for pass, name := range []string{"values", "histograms"} {
+			n := 0
+			for _, p := range pts {
+				if (p.H != "") != (pass == 1) {
+					continue
+				}
+				if n == 0 {
+					fmt.Fprintf(&b, `,%q:[`, name)
+				} else {
+					b.WriteByte(',')
+				}
+				n++
+				if pass == 0 {
+					fmt.Fprintf(&b, `[%d.%03d,"%s"]`, p.T/1000, p.T%1000, strconv.FormatFloat(p.V, 'f', -1, 64))
+					continue
+				}
+				sid := d.w.sid(tenant, query, i)
+				cnt, sum, bk := vfc42HistOf(vfc42Mix(sid ^ uint64(p.T)*0x9e3779b97f4a7c15))
+				fmt.Fprintf(&b, `[%d.%03d,{"count":"%s","sum":"%s","buckets":[`, p.T/1000, p.T%1000, strconv.FormatFloat(cnt, 'f', -1, 64), strconv.FormatFloat(sum, 'f', -1, 64))
+				for j, k := range bk {
+					if j > 0 {
+						b.WriteByte(',')
+					}
+					fmt.Fprintf(&b, `[%d,"%s","%s","%s"]`, int(k[0]), strconv.FormatFloat(k[1], 'f', -1, 64), strconv.FormatFloat(k[2], 'f', -1, 64), strconv.FormatFloat(k[3], 'f', -1, 64))
+				}
+				b.WriteString("]}]")
+			}
+			if n > 0 {
+				b.WriteByte(']')
+			}
+		}
+		b.WriteString("}")
 	}
 	b.WriteString("]}}")
 	return &http.Response{StatusCode: 200, Header: http.Header{"Content-Type": []string{"application/json"}},
@@ -271,6 +349,7 @@ type vfc42Hist struct {
 	Cache       string       `json:"cache"` // lossy:<pct> | fifo:<items>
 	Compression string       `json:"compression"`
 	Series      int          `json:"series_per_query"`
+	Histograms  bool         `json:"native_histogram_series"`
 	WorldSeed   uint64       `json:"world_seed"`
 	Queries     []vfc42Query `json:"queries"`
 }
@@ -295,6 +374,7 @@ func vfc42Gen(rng *rand.Rand) vfc42Hist {
 	}
 	h.Compression = vfkit.Pick(rng, []string{"", "", "snappy"})
 	h.Series = 2 + rng.Intn(4)
+	h.Histograms = rng.Intn(4) != 0
 	h.WorldSeed = rng.Uint64()
 	// steps of the history
 	si := rng.Intn(len(vfc42Steps))
@@ -347,7 +427,29 @@ func vfc42Gen(rng *rand.Rand) vfc42Hist {
 			q.End = q.Start + dur
 		} else {
 			plen := prev.End - prev.Start
-			switch rng.Intn(7) {
+			switch rng.Intn(11) {
+			case 7:
+				q.Rel = "left-extension"
+				q.Start, q.End = prev.Start-(1+rng.Int63n(maxPts))*q.Step, prev.End
+			case 8:
+				q.Rel = "right-extension"
+				q.Start, q.End = prev.Start, prev.End+(1+rng.Int63n(maxPts))*q.Step
+			case 9:
+				q.Rel = "adjacent-before"
+				q.End = prev.Start - int64(rng.Intn(2))*q.Step
+				q.Start = q.End - dur
+			case 10:
+				// span an earlier query and another earlier query of the same tenant/query string: what lies between is a hole
+				q.Rel = "superset"
+				q.Start, q.End = prev.Start-rng.Int63n(dur+1), prev.End+rng.Int63n(dur+1)
+				for _, j := range rng.Perm(k) {
+					o := h.Queries[j]
+					if o.Tenant == prev.Tenant && o.Query == prev.Query && (o.Start > prev.End+o.Step || o.End+o.Step < prev.Start) {
+						q.Rel = "hole-fill"
+						q.Start, q.End = min(o.Start, prev.Start), max(o.End, prev.End)
+						break
+					}
+				}
 			case 0:
 				q.Rel, q.Start, q.End = "identical", prev.Start, prev.End
 			case 1:
@@ -375,7 +477,7 @@ func vfc42Gen(rng *rand.Rand) vfc42Hist {
 				q.Start = prev.End + (2+rng.Int63n(20))*q.Step
 				q.End = q.Start + dur
 			}
-			if rng.Intn(3) != 0 {
+			if rng.Intn(3) != 0 || q.Rel == "hole-fill" || q.Rel == "left-extension" || q.Rel == "right-extension" {
 				q.Tenant, q.Query = prev.Tenant, prev.Query
 			}
 			// keep the history on the step grid: starts and ends are multiples of the step ...
@@ -389,7 +491,11 @@ func vfc42Gen(rng *rand.Rand) vfc42Hist {
 			q.End = q.Start
 		}
 		if (q.End-q.Start)/q.Step > 600 {
-			q.End = q.Start + 600*q.Step
+			if q.Rel == "left-extension" {
+				q.Start = q.End - 600*q.Step // keep the cached right part in the range
+			} else {
+				q.End = q.Start + 600*q.Step
+			}
 		}
 		// ... unless the frontend aligns itself: then some requests are sent unaligned
 		if h.Align && rng.Intn(3) == 0 {
@@ -411,7 +517,8 @@ type vfc42Resp struct {
 		ResultType string `json:"resultType"`
 		Result     []struct {
 			Metric map[string]string `json:"metric"`
-			Values [][2]any          `json:"values"`
+			Values     [][2]any          `json:"values"`
+			Histograms [][2]any          `json:"histograms"`
 		} `json:"result"`
 	} `json:"data"`
 }
@@ -431,7 +538,7 @@ func vfc42Parse(body []byte) (map[string][]vfc42Pt, error) {
 		if len(s.Metric) != 3 {
 			key = fmt.Sprint(s.Metric)
 		}
-		var pts []vfc42Pt
+		var fl, hs []vfc42Pt
 		for _, v := range s.Values {
 			tf, ok1 := v[0].(float64)
 			vs, ok2 := v[1].(string)
@@ -442,7 +549,56 @@ func vfc42Parse(body []byte) (map[string][]vfc42Pt, error) {
 			if err != nil {
 				return nil, err
 			}
-			pts = append(pts, vfc42Pt{int64(math.Round(tf * 1000)), f})
+			fl = append(fl, vfc42Pt{T: int64(math.Round(tf * 1000)), V: f})
+		}
+		for _, v := range s.Histograms {
+			tf, ok1 := v[0].(float64)
+			ho, ok2 := v[1].(map[string]any)
+			if !ok1 || !ok2 {
+				return nil, fmt.Errorf("malformed histogram sample %v", v)
+			}
+			num := func(x any) (float64, bool) {
+				switch y := x.(type) {
+				case string:
+					f, err := strconv.ParseFloat(y, 64)
+					return f, err == nil
+				case float64:
+					return y, true
+				}
+				return 0, false
+			}
+			cnt, okc := num(ho["count"])
+			sum, oks := num(ho["sum"])
+			if !okc || !oks {
+				return nil, fmt.Errorf("malformed histogram %v", ho)
+			}
+			var bk [][4]float64
+			bl, _ := ho["buckets"].([]any)
+			for _, b := range bl {
+				ba, ok := b.([]any)
+				if !ok || len(ba) != 4 {
+					return nil, fmt.Errorf("malformed histogram bucket %v", b)
+				}
+				var k [4]float64
+				for j := range ba {
+					f, ok := num(ba[j])
+					if !ok {
+						return nil, fmt.Errorf("malformed histogram bucket %v", b)
+					}
+					k[j] = f
+				}
+				bk = append(bk, k)
+			}
+			hs = append(hs, vfc42Pt{T: int64(math.Round(tf * 1000)), H: vfc42HistCanon(cnt, sum, bk)})
+		}
+		// merge the two lists by timestamp; an order violation inside a list survives the merge
+		var pts []vfc42Pt
+		for len(fl) > 0 || len(hs) > 0 {
+			if len(hs) == 0 || (len(fl) > 0 && fl[0].T <= hs[0].T) {
+				pts, fl = append(pts, fl[0]), fl[1:]
+			} else {
+				pts, hs = append(pts, hs[0]), hs[1:]
+			}
 		}
 		if len(pts) == 0 {
 			continue // a series without samples carries no information
@@ -487,13 +643,13 @@ func vfc42Diff(want, got map[string][]vfc42Pt, start, step int64) (string, strin
 			return "series-missing", fmt.Sprintf("series %s (%d samples in the direct answer) is missing", k, len(want[k]))
 		}
 		w := want[k]
-		wi := map[int64]float64{}
+		wi := map[int64]vfc42Pt{}
 		for _, p := range w {
-			wi[p.T] = p.V
+			wi[p.T] = p
 		}
-		gi := map[int64]float64{}
+		gi := map[int64]vfc42Pt{}
 		for _, p := range g {
-			gi[p.T] = p.V
+			gi[p.T] = p
 			if _, ok := wi[p.T]; !ok {
 				return "sample-added", fmt.Sprintf("series %s has a sample at t=%d that the direct answer does not have", k, p.T)
 			}
@@ -503,8 +659,11 @@ func vfc42Diff(want, got map[string][]vfc42Pt, start, step int64) (string, strin
 			if !ok {
 				return "sample-missing", fmt.Sprintf("series %s lacks the sample at t=%d", k, p.T)
 			}
-			if v != p.V {
-				return "value-differs", fmt.Sprintf("series %s at t=%d: %v, direct answer %v", k, p.T, v, p.V)
+			if (v.H == "") != (p.H == "") {
+				return "sample-type-differs", fmt.Sprintf("series %s at t=%d: float/native-histogram kind differs from the direct answer", k, p.T)
+			}
+			if v.V != p.V || v.H != p.H {
+				return "value-differs", fmt.Sprintf("series %s at t=%d: %v %s, direct answer %v %s", k, p.T, v.V, v.H, p.V, p.H)
 			}
 		}
 	}
@@ -537,10 +696,11 @@ func TestVF_C42(t *testing.T) {
 	defer r.Finish()
 	r.Rule("case = history of 1..8 range queries (1-2 tenants, 1-2 query strings, steps from {15s,1m,5m,1h}: one step / finer-then-coarser / two mixed; each query fresh or identical/shifted/adjacent/contained/superset/disjoint w.r.t. an earlier one; start==end sometimes; <=600 points) " +
 		"against a fresh real NewTripperware (results cache + split interval {1h,6h,24h} or dynamic split, align-range-with-step on 70%/off 30%, parallelism 1..4, cache backend = lossy in-memory cache (0/10/30% of accesses lose the entry) or the real FIFO cache with 1..4 items, optional snappy); " +
-		"downstream = pure function of (tenant, query, timestamp) with series that appear/disappear and 7-minute holes, all data in March 2021; " +
+		"each query fresh or identical/shifted/adjacent-before/after/contained/superset/disjoint/left-extension/right-extension/hole-fill w.r.t. earlier ones; " +
+		"downstream = pure function of (tenant, query, timestamp) with series that appear/disappear and 7-minute holes, all data in March 2021; in 3 of 4 histories each series is float, native-histogram-only or mixed (11-minute blocks) by a hash of (world, i), so histogram-only series sort first, in the middle or last; histogram samples (count, sum, buckets) are compared like float values; " +
 		"requests are on the step grid unless align-range-with-step is on (then 1/3 are unaligned and the oracle is the direct answer for the step-aligned range, the documented behaviour of that option); " +
 		"oracle: response through the frontend == direct answer (series set, timestamps, values, exact); distinct = history; non-trivial = at least one cache hit happened in the history")
-	n := r.N(400, 8000)
+	n := r.N(350, 7000)
 	r.Require(int64(n)*2, n/3)
 	r.Assume("data does not change and the downstream is deterministic (premise of the property)")
 	r.Assume("with align-range-with-step off only requests whose start and end are multiples of their step are sent (the results cache documents that it assumes step-aligned requests)")
@@ -567,7 +727,7 @@ func vfc42Run(r *vfkit.Run, c int, h vfc42Hist, codec *queryRangeCodec) {
 	if err != nil {
 		r.T.Fatalf("NewTripperware: %v", err)
 	}
-	down := &vfc42Down{w: vfc42World{seed: h.WorldSeed, nSeries: h.Series}}
+	down := &vfc42Down{w: vfc42World{seed: h.WorldSeed, nSeries: h.Series, hist: h.Histograms}}
 	rt := tpw(down)
 	hits := false
 	for k, q := range h.Queries {
@@ -601,6 +761,26 @@ func vfc42Run(r *vfkit.Run, c int, h vfc42Hist, codec *queryRangeCodec) {
 			case class == "first-query":
 				class = "after-other-step-query"
 			}
+		}
+		// answers whose first series (label order) holds native histogram samples only are a class of their own:
+		// the response merger orders partial responses by the first sample of their first series
+		for i := 0; i < h.Series; i++ {
+			pts, ok := want[vfc42SeriesKey(q.Tenant, q.Query, i)]
+			if !ok {
+				continue
+			}
+			allHist := true
+			for _, p := range pts {
+				if p.H == "" {
+					allHist = false
+					break
+				}
+			}
+			if allHist {
+				class += ":first-series-native-histograms-only"
+				r.Count("answers_whose_first_series_is_histogram_only", 1)
+			}
+			break
 		}
 		wit := func(extra map[string]any) map[string]any {
 			m := map[string]any{"history": h, "failing_query_index": k, "failing_query": q, "evaluated_range": []int64{start, end}, "downstream_calls_for_this_query": down.ncalls() - callsBefore}
@@ -651,6 +831,15 @@ func vfc42Run(r *vfkit.Run, c int, h vfc42Hist, codec *queryRangeCodec) {
 		b, _ := json.Marshal(h)
 		r.Distinct(string(b))
 	}
+	for _, q := range h.Queries {
+		r.Count("relation:"+strings.TrimSuffix(q.Rel, "+unaligned"), 1)
+	}
+	if h.Histograms {
+		r.Count("histories_with_native_histogram_series", 1)
+	}
+	down.mu.Lock()
+	r.Count("downstream_responses_whose_first_series_is_histogram_only", down.histFirst)
+	down.mu.Unlock()
 	r.Count("downstream_calls", down.ncalls())
 	r.Count("queries", len(h.Queries))
 	r.Sample(map[string]any{"history": h, "downstream_calls": down.ncalls()})
